@@ -6,7 +6,7 @@ ID = 'C08'
 FLAVORS = ['default']
 RULE = ('streams of 1..8 messages (well-formed and mutated, with blocks carrying embedded terminators, quoted strings, empty units, CR LF pairs) shorter than the 256-byte input buffer; '
         'each stream is fed byte-at-a-time (reference), all-at-once, at every single split point (quick: up to 12 sampled points) and in 3 random multi-way splits, each followed by a zero-length call; '
-        'handler starts, parameters, output bytes, errors and the unconsumed remainder are compared across the chunkings on the implementation, and every chunking is compared with the model. '
+        'handler starts, parameters, output bytes, errors and the unconsumed remainder are compared across the chunkings on the implementation, and every chunking is compared with the model. stream flush: an unfinished block or string, a bare header or a buffer-filling message is pending, a zero-length call, then a message that must run on its own. stream separators-as-data: semicolons inside quoted strings, semicolons and line feeds inside blocks, next to real separators, under every single cut. '
         'Non-trivial: a stream of at least two messages in which a handler ran; distinct = distinct lines.')
 MODELLED = 'SCPI_Input (append, overrun guard, rescan loop, memmove) and everything it calls are modelled in ParserModel'
 ASSUMPTIONS = ['return values of the individual input calls are not part of the statement', 'a line terminator inside a quoted string is known finding C08/newline-in-quoted-string']
@@ -207,3 +207,27 @@ def streams(tier, rng):
             return [('flush', 'pending %r, zero-length call, then %r: bytes are still pending at the end (%s)' % (pd, follow, pending[-1]))]
         return []
     yield {'name': 'flush', 'cases': fcases, 'project': project, 'oracle': foracle, 'nontrivial': lambda c, o: c}
+
+    # unit separators and terminators that are DATA: ';' inside quoted strings, ';' and line feeds inside blocks, next to real
+    # separators -- every single cut, byte-at-a-time and whole delivery must agree
+    qtable = [(1, b'TEXT', 'PTEXT:20:1;PBLOCK:0'), (2, b'SAMP', 'PBLOCK:1;PTEXT:20:0'), (3, b'NUM', 'PI32:1'), (4, b'Q?', 'RI32:5')]
+    qstreams = [b'TEXT "a;b",#15xx\nyy\n', b"TEXT 'a;b;c'\n", b'TEXT "a;b"\nNUM 7\n', b'TEXT "x",#13a;b;Q?\n', b'SAMP #15a;b\nc;Q?\n', b'TEXT "a;b";Q?\n',
+                b'SAMP #14;;;;,"q;r"\n', b'Q?;TEXT ";";Q?\n', b'SAMP #12\n\n;NUM 3\nQ?\n', b'TEXT "a;b",#15xx\nyy;NUM 1\n', b"TEXT ';;';SAMP #11;;Q?\r\n"]
+    qcases, qgroups = [], []
+    for st in qstreams:
+        start = len(qcases)
+        parts = [[st[i:i + 1] for i in range(len(st))], [st]] + [[st[:p], st[p:]] for p in range(1, len(st))]
+        for ch in parts:
+            qcases.append(gen.scenario(64, 8, qtable, [('I', x) for x in ch if x] + [('I', b'')]))
+        qgroups.append((start, len(qcases), st))
+
+    def qpost(cases_, outs):
+        res = []
+        for a, b, st in qgroups:
+            ref = events_proj(outs[a])
+            for i in range(a + 1, b):
+                if events_proj(outs[i]) != ref:
+                    res.append((i, 'chunking', 'stream %r: this partition behaves differently from byte-at-a-time delivery\n  byte-at-a-time: %s\n  this partition: %s' % (st, ref[:400], events_proj(outs[i])[:400])))
+                    break
+        return res
+    yield {'name': 'separators-as-data', 'cases': qcases, 'project': project, 'post': qpost, 'nontrivial': lambda c, o: c}
